@@ -2765,7 +2765,7 @@ class Builder(object):
                 if connective in ('as', ):
                     parts = []
                     while index < len(tokens): # kind parts end when connective
-                        if tokens[index] in ['as', 'at', 'with', 'from' 'per',
+                        if tokens[index] in ['as', 'at', 'via', 'with', 'from', 'per',
                                              'for', 'cum', 'qua' ]: # end of parts
                             break
                         parts.append(tokens[index])
